@@ -1,6 +1,24 @@
 import LhasaV.Props.C20
+import LhasaV.Props.C20Alloc
 open LhasaV.Props.C20
 #print axioms free_releases_all
 #print axioms free_releases_all_prefix
 #print axioms legal_iff_segments
 #print axioms decoders_exact
+open LhasaV.Props.C20Alloc
+#print axioms alloc_failure_releases_all
+#print axioms alloc_failure_releases_all_prefix
+#print axioms alloc_failure_new
+#print axioms alloc_failures_release_all
+#print axioms alloc_failure_reports
+#print axioms alloc_failures_report
+#print axioms nextA_never_faults
+#print axioms alloc_failure_no_later_fault
+#print axioms header_under_failure
+#print axioms fired_iff
+#print axioms alloc_failure_decoders_exact
+#print axioms runA_refines
+#print axioms freeA_refines
+#print axioms results_refine
+#print axioms header_readA_refines
+#print axioms header_readA_blocks
